@@ -93,6 +93,11 @@ def likeVal (d : Dialect) (op : Op) (esc : Option String) (a b : Val) : Val :=
   | .not_ilike_op => ofTV (not3 (ilikeTV d a b esc))
   | _ => .null
 
+/-- value of BETWEEN / NOT BETWEEN from the values of the operand and of the pair of bounds -/
+def btwVal (negated : Bool) (x : Val) : List Val → Val
+  | [lo, hi] => ofTV (if negated then not3 (evalBetween x lo hi) else evalBetween x lo hi)
+  | _ => .null
+
 mutual
 def evalCore (env : String → Val) (d : Dialect) : SaExpr → Val
   | .col n _ => env n
@@ -102,6 +107,12 @@ def evalCore (env : String → Val) (d : Dialect) : SaExpr → Val
   | .false_ => .int 0
   | .binary .truediv l r _ _ _ => divVal d .truediv (tyOf l) (tyOf r) (evalCore env d l) (evalCore env d r)
   | .binary .floordiv l r _ _ _ => divVal d .floordiv (tyOf l) (tyOf r) (evalCore env d l) (evalCore env d r)
+  | .binary .between_op l (.clist .and_ cs false false _) _ _ _ =>
+    btwVal false (evalCore env d l) (evalCoreList env d cs)
+  | .binary .not_between_op l (.clist .and_ cs false false _) _ _ _ =>
+    btwVal true (evalCore env d l) (evalCoreList env d cs)
+  | .binary .in_op l (.inlist vs _ _) _ _ _ => ofTV (evalIn (evalCore env d l) (vs.map litVal))
+  | .binary .not_in_op l (.inlist vs _ _) _ _ _ => ofTV (evalNotIn (evalCore env d l) (vs.map litVal))
   | .binary .like_op l r _ esc _ => likeVal d .like_op esc (evalCore env d l) (evalCore env d r)
   | .binary .not_like_op l r _ esc _ => likeVal d .not_like_op esc (evalCore env d l) (evalCore env d r)
   | .binary .ilike_op l r _ esc _ => likeVal d .ilike_op esc (evalCore env d l) (evalCore env d r)
@@ -172,6 +183,11 @@ def evalBoolU (env : String → Val) (d : Dialect) : U → TV
        else evalCmp .is_not (evalNumU env d a) .null
      | _ => evalCmp k.op (evalNumU env d a) (evalNumU env d b))
   | .like k esc a b => truth (likeVal d k.op esc (evalNumU env d a) (evalNumU env d b))
+  | .between x lo hi =>
+    evalBetween (evalNumU env d x) (evalNumU env d lo) (evalNumU env d hi)
+  | .inOp negated vals x =>
+    if negated then evalNotIn (evalNumU env d x) (vals.map litVal)
+    else evalIn (evalNumU env d x) (vals.map litVal)
   | .not_ a => not3 (evalBoolU env d a)
   | .and_ cs => andAll (evalBoolUList env d cs)
   | .or_ cs => orAll (evalBoolUList env d cs)
